@@ -17,10 +17,10 @@ import (
 // ---- the script (spec/Failover/Gen_Failover.tla, operator Proj)
 
 type HRec struct {
-	Status                      bool
-	Fail, LastFail, Send        int
-	ASucc, ABlock, ACheck       int
-	capSucc, capBlock, capCheck int
+	Status                bool
+	Fail, LastFail, Send  int
+	ASucc, ABlock, ACheck int
+	AKeep                 int
 }
 
 func (h *HRec) UnmarshalJSON(b []byte) error {
@@ -28,13 +28,13 @@ func (h *HRec) UnmarshalJSON(b []byte) error {
 	if err := json.Unmarshal(b, &raw); err != nil {
 		return err
 	}
-	if len(raw) != 7 {
-		return fmt.Errorf("health record needs 7 fields, has %d", len(raw))
+	if len(raw) != 8 {
+		return fmt.Errorf("health record needs 8 fields, has %d", len(raw))
 	}
 	if err := json.Unmarshal(raw[0], &h.Status); err != nil {
 		return err
 	}
-	for i, p := range []*int{&h.Fail, &h.LastFail, &h.Send, &h.ASucc, &h.ABlock, &h.ACheck} {
+	for i, p := range []*int{&h.Fail, &h.LastFail, &h.Send, &h.ASucc, &h.ABlock, &h.ACheck, &h.AKeep} {
 		if err := json.Unmarshal(raw[i+1], p); err != nil {
 			return err
 		}
@@ -87,8 +87,10 @@ type Behaviour struct {
 	// Overlap: status checks may run while a call is in flight.  Then a healthy endpoint can sit in the probe
 	// queue (see Failover.tla, ProbesTargetBlocked) and activeEp can hold it twice; the selectors stay the
 	// reference for "in rotation" and activeEp is compared as an observation only.
-	Overlap bool   `json:"overlap"`
-	Steps   []Step `json:"steps"`
+	Overlap bool `json:"overlap"`
+	// KeepAlive: the behaviour assumes client keep-alive with a 5 s interval (fodrive -keepalive-ms 5000)
+	KeepAlive bool   `json:"keepalive"`
+	Steps     []Step `json:"steps"`
 }
 
 // thresholds of tars/setting.go = saturation values of the model's ages
@@ -96,6 +98,7 @@ const (
 	capSucc  = 5
 	capBlock = 30
 	capCheck = 60
+	capKeep  = 5
 	capFail  = 5
 )
 
@@ -254,6 +257,9 @@ func replayOnce(idx int, b *Behaviour, timeoutMode bool, tms int, attempt int64)
 	init := State{H: make([]HRec, b.N), Fl: make([]Flight, b.Calls)}
 	for i := range init.H {
 		init.H[i] = HRec{Status: true, ASucc: capSucc, ABlock: capBlock, ACheck: capCheck}
+		if b.KeepAlive {
+			init.H[i].AKeep = capKeep
+		}
 		init.Ac = append(init.Ac, i+1)
 	}
 	if f, e, g := r.compare(&init, true); f != "" {
@@ -573,12 +579,15 @@ func (r *run) compare1(m *State, full bool) (field, exp, got string) {
 			{"lastSuccessTime", mh.ASucc, capSucc, now - h.LastSuccessTime, mh.Status},
 			{"lastCheckTime", mh.ACheck, capCheck, now - h.LastCheckTime, mh.Status},
 			{"lastBlockTime", mh.ABlock, capBlock, now - h.LastBlockTime, !mh.Status},
+			{"lastKeepAliveTime", mh.AKeep, capKeep, now - h.LastKeepAlive, r.b.KeepAlive},
 		} {
 			if !ageOK(a.model, a.cap, a.real) {
 				if a.relevant {
 					return a.name, fmt.Sprintf("ep%d age(%s)=%d (saturating at %d)", e, a.name, a.model, a.cap), fmt.Sprintf("ep%d age=%d", e, a.real)
 				}
-				r.obs = append(r.obs, "obs_unread_age_differs")
+				if a.name != "lastKeepAliveTime" {
+					r.obs = append(r.obs, "obs_unread_age_differs")
+				}
 			}
 		}
 	}
